@@ -2,6 +2,8 @@ pub mod batch_compile;
 mod compiler_state;
 mod read_files;
 mod source_files;
+#[cfg(isographlabs_isograph_verif)]
+pub mod verif_hooks;
 pub mod watch;
 mod with_duration;
 mod write_artifacts;
